@@ -367,6 +367,54 @@ DIRECT = [
 ]
 
 
+CONST_BASES = [343.2001, 1.0 / 3.0, 1000001.0, 0.1, 2.5e-7, 1.0, 6.02214076e23]
+
+
+def const_family(c0):
+    """constants around c0 that differ only in low digits, sign or exponent"""
+    import math
+    out = [c0, math.nextafter(c0, math.inf), math.nextafter(c0, -math.inf), c0 * (1 + 2.0 ** -40), c0 * (1 + 1e-9),
+           c0 * (1 + 8.7e-7), c0 * (1 + 3e-6), c0 * (1 + 1e-5), c0 * (1 + 1e-3), -c0, c0 * 10, c0 / 10, c0 * 2, c0 * 2.0 ** 61,
+           float('%.6g' % c0), float('%.3g' % c0)]
+    res = []
+    for x in out:
+        if x not in res:
+            res.append(x)
+    return res
+
+
+def history_specs(rng, thorough=False):
+    """Histories of add / hash / compile on form objects (ops: ['add', i, code], ['hash', i], ['compile', i, od])."""
+    EX = ['u * v * dx', 'inner(grad(u), grad(v)) * dx', '2 * u * v * dx', 'u.dx(0) * v * dx', 'u.dx(1) * v.dx(1) * dx',
+          '343.2001 * u * v * dx', 'tr(hess(u)) * v * dx']
+    hs = []
+
+    def H(dim, nobj, ops, kind):
+        hs.append({'dim': dim, 'objects': ['V = VForm(%d); u, v = V.basisfuns()' % dim] * nobj, 'ops': ops, 'kind': kind})
+    for dim in (2, 3):
+        for a, b in [(0, 1), (1, 0), (0, 2), (3, 4), (1, 6)] if dim == 2 else [(0, 1)]:
+            for od in (0, 1):
+                H(dim, 1, [['add', 0, EX[a]], ['hash', 0], ['add', 0, EX[b]], ['compile', 0, od]], 'add-hash-add-compile')
+                H(dim, 1, [['add', 0, EX[a]], ['compile', 0, od], ['add', 0, EX[b]], ['compile', 0, od], ['hash', 0]], 'add-compile-add-compile')
+                H(dim, 2, [['add', 0, EX[a]], ['compile', 0, od], ['add', 1, EX[a]], ['hash', 1], ['add', 1, EX[b]], ['compile', 1, od],
+                           ['compile', 0, od]], 'two-objects')
+            H(dim, 1, [['add', 0, EX[a]], ['add', 0, EX[b]], ['hash', 0], ['compile', 0, 0], ['hash', 0], ['compile', 0, 1]], 'complete-then-hash')
+            H(dim, 2, [['add', 0, EX[a]], ['add', 0, EX[b]], ['add', 1, EX[a]], ['hash', 1], ['compile', 0, 0], ['add', 1, EX[b]],
+                       ['compile', 1, 0]], 'two-objects')
+    for _ in range(120 if thorough else 24):
+        nobj = rng.choice([1, 2, 2, 3])
+        ops = []
+        for i in range(nobj):
+            ops.append(['add', i, rng.choice(EX)])
+        for _k in range(rng.randint(2, 7)):
+            i = rng.randrange(nobj)
+            c = rng.random()
+            ops.append(['add', i, rng.choice(EX)] if c < 0.4 else (['hash', i] if c < 0.6 else ['compile', i, rng.randint(0, 1)]))
+        ops.append(['compile', rng.randrange(nobj), 0])
+        H(2, nobj, ops, 'random')
+    return hs
+
+
 def gen_specs(rng, thorough=False):
     """Returns the list of specs (ids assigned) and the input distribution."""
     specs = []
@@ -402,6 +450,10 @@ def gen_specs(rng, thorough=False):
                 b2 = dict(base)
                 b2[n] = v
                 add(int(b2.get('d', dim)), tmpl.format(**b2), grp, kinds[n])
+    for k, c0 in enumerate(CONST_BASES):
+        grp = 'const%d' % k
+        for j, c in enumerate(const_family(c0)):
+            add(2, 'V = VForm(2); u, v = V.basisfuns(); V.add(%r * u * v * dx)' % c, grp, 'base' if j == 0 else 'constant-low-digits')
     nrand = 160 if thorough else 28
     for k in range(nrand):
         p = random_parse_spec(rng)
